@@ -1,4 +1,4 @@
-(* C21 — executable model of IPAM release / cooldown / FIFO reuse (libcalico-go/lib/ipam/ipam_block.go, ipam.go).
+(* C21 — executable model of IPAM release / cooldown / FIFO reuse / block deletion (libcalico-go/lib/ipam/ipam_block.go, ipam.go).
    Definitions only (no proofs).
 
    * block mirrors model.AllocationBlock: Allocations (per ordinal: index into Attributes), Unallocated (FIFO of
